@@ -147,7 +147,7 @@ from typing import Any, TypeAlias
 from ...ast.fpyast import *
 from ...ast.visitor import Visitor
 from ...function import Function
-from ...number import INTEGER, REAL, Context, Float, RealFloat
+from ...number import INTEGER, REAL, Context, Float, OverflowMode, RealFloat
 from ...number.context.exponential import ExpFormat
 from ...number.format import REAL_FORMAT, Format
 from ...types import (
@@ -1857,7 +1857,15 @@ class _FormatInferInstance(Visitor):
         # ``float('inf')`` sentinel used for unbounded prec.
         prec = min(exact.prec, scope_af.prec)
         exp = max(exact.exp, scope_af.exp)
-        if exact.prec > scope_af.prec:
+        over_pos = exact.pos_bound > scope_af.pos_bound
+        over_neg = exact.neg_bound < scope_af.neg_bound
+        # a wrapping context sends a value past one bound anywhere in its
+        # range, so an overflow leaves nothing to tighten on either side
+        wraps = (
+            (over_pos or over_neg)
+            and getattr(resolved, 'overflow', None) is OverflowMode.WRAP
+        )
+        if exact.prec > scope_af.prec or wraps:
             pos_bound = scope_af.pos_bound
             neg_bound = scope_af.neg_bound
         else:
@@ -1867,8 +1875,6 @@ class _FormatInferInstance(Visitor):
         # the scope represents, an overflow produces the scope's infinity (or
         # its NaN, in a format without one), and a negative value finer than
         # the scope's quantum can round to the scope's `-0.0`.
-        over_pos = exact.pos_bound > scope_af.pos_bound
-        over_neg = exact.neg_bound < scope_af.neg_bound
         special = (
             exact.has_nan or exact.has_pos_inf or exact.has_neg_inf
             or over_pos or over_neg
